@@ -19,6 +19,7 @@ Definition dump_tokens (ts : list token) : list Z :=
 Fixpoint dump_tree (t : tree) : list Z :=
   match t with
   | Tok k text => [0; Z.of_N (kind_code k); Z.of_N (utf8_size text)]
+  | Node k [] => [0; Z.of_N (kind_code k); 0]      (* syntree shows a node without children like a token without text *)
   | Node k ch => [1; Z.of_N (kind_code k); Z.of_nat (length ch)] ++
                  (fix go (l : list tree) := match l with [] => [] | x :: r => dump_tree x ++ go r end) ch
   end.
